@@ -249,42 +249,62 @@ def get_BID128_fast (sgn : Nat) (expon : Int) (coeff : U128) : U128 × Int × U1
   let tmp := shl64 (wordOfI32 expon) 49
   ((coeff.1, sgn ||| tmp ||| coeff.2), expon, coeff)
 
+/-- the sign-adjusted rounding mode: `rmode = rnd_mode; if sgn != 0 && (rmode − 1) < 2 { rmode = 3 − rmode }`
+(`Downward` and `Upward` change places for a negative result) -/
+def ufRmode (sgn : Nat) (rnd_mode : Mode) : Mode :=
+  if sgn ≠ 0 ∧ (rnd_mode = .rdn ∨ rnd_mode = .rup) then (if rnd_mode = .rdn then .rup else .rdn) else rnd_mode
+
+/-- `Qh1 = __shl_128_long (Qh, 128 − amount);  Qh1.w[1] == 0 && Qh1.w[0] == 0 && Ql < BID_RECIPROCALS10_128[ed2]`:
+the fractional part of the scaled product is below one reciprocal unit (the division was exact).  Used by the
+round-half-even midpoint repair and by the exactness test of the truncating modes. -/
+def fracZero (Qh Ql TP128 : U128) (amount : Nat) : Bool :=
+  let Qh1 := shl_128_long Qh (128 - amount)
+  Qh1.2 == 0 && Qh1.1 == 0 && lt_128 Ql TP128
+
+/-- `Qh1.w[1] == 0x8000000000000000 && Qh1.w[0] == 0 && Ql < BID_RECIPROCALS10_128[ed2]`: the fractional part is
+one half (exactness test of the two nearest modes, whose rounding constant is half a unit) -/
+def fracHalf (Qh Ql TP128 : U128) (amount : Nat) : Bool :=
+  let Qh1 := shl_128_long Qh (128 - amount)
+  Qh1.2 == 0x8000000000000000 && Qh1.1 == 0 && lt_128 Ql TP128
+
+/-- the `_ =>` arm ("round up") of the exactness test: adding one reciprocal unit to the fractional part carries
+out of it -/
+def fracTop (Qh Ql TP128 : U128) (amount : Nat) : Bool :=
+  let Qh1 := shl_128_long Qh (128 - amount)
+  let (_, CY) := add_carry_out Ql.1 TP128.1
+  let (_, carry) := add_carry_in_out Ql.2 TP128.2 CY
+  let Qh2 := shr_128_long Qh1 (128 - amount)
+  let Tmp1 := shl_128_long (1, 0) amount
+  let q0 := add64 Qh2.1 carry
+  let q1 := if q0 < carry then add64 Qh2.2 1 else Qh2.2
+  ge_128 (q0, q1) Tmp1
+
 /-- `handle_UF_128` / `bid_handle_UF_128_rem` from the line `T128 = BID_ROUND_CONST_TABLE_128[rmode][ed2]` on
 (l. 441–524 and l. 309–397: the two texts are the same statement for statement; in the `_rem` variant the final
 `if status != EXACT` sits inside the `else`, where it is the same thing because `status` is still `EXACT` on the
 other path).  `CQ` is the coefficient the rounding constant is added to, `ed2` the number of digits to remove. -/
 def ufTail (sgn : Nat) (ed2 : Int) (CQ : U128) (rnd_mode : Mode) (fpsc : Nat) : Option (U128 × Nat) :=
-  -- rmode = rnd_mode; if sgn != 0 && (rmode - 1) < 2 { rmode = 3 - rmode }
-  let rmode : Mode :=
-    if sgn ≠ 0 ∧ (rnd_mode = .rdn ∨ rnd_mode = .rup) then (if rnd_mode = .rdn then .rup else .rdn) else rnd_mode
+  let rmode := ufRmode sgn rnd_mode
   match roundConst rmode ed2, recip ed2, recipScale ed2 with
   | some T128, some TP128, some amount =>
-    let (cq0, carry) := add_carry_out T128.1 CQ.1
-    let cq1 := add64 (add64 CQ.2 T128.2) carry
-    let (Qh, Ql) := mul_128x128_full (cq0, cq1) TP128
-    let CQ : U128 := if amount ≥ 64 then (shr64 Qh.2 (amount - 64), 0) else shr_128 Qh amount
+    -- add rounding constant to CQ
+    let sc := add_carry_out T128.1 CQ.1
+    let cq1 := add64 (add64 CQ.2 T128.2) sc.2
+    let Q := mul_128x128_full (sc.1, cq1) TP128          -- (Qh, Ql)
+    let CQ : U128 := if amount ≥ 64 then (shr64 Q.1.2 (amount - 64), 0) else shr_128 Q.1 amount
     -- round-half-even: undo the increment on an exact midpoint
     let CQ : U128 :=
       if rnd_mode = .rne ∧ CQ.1 &&& 1 = 1 then
-        let Qh1 := shl_128_long Qh (128 - amount)
-        if Qh1.2 == 0 && Qh1.1 == 0 && lt_128 Ql TP128 then (sub64 CQ.1 1, CQ.2) else CQ
+        if fracZero Q.1 Q.2 TP128 amount then (sub64 CQ.1 1, CQ.2) else CQ
       else CQ
     let fpsc : Nat :=
       if fpsc &&& fInexact = fInexact then fpsc ||| fUnderflow
       else
-        let Qh1 := shl_128_long Qh (128 - amount)
         let exact : Bool :=
           match rmode with
-          | .rne | .rna => Qh1.2 == 0x8000000000000000 && Qh1.1 == 0 && lt_128 Ql TP128
-          | .rdn | .rtz => Qh1.2 == 0 && Qh1.1 == 0 && lt_128 Ql TP128
-          | .rup =>
-            let (_, CY) := add_carry_out Ql.1 TP128.1
-            let (_, carry) := add_carry_in_out Ql.2 TP128.2 CY
-            let Qh2 := shr_128_long Qh1 (128 - amount)
-            let Tmp1 := shl_128_long (1, 0) amount
-            let q0 := add64 Qh2.1 carry
-            let q1 := if q0 < carry then add64 Qh2.2 1 else Qh2.2
-            ge_128 (q0, q1) Tmp1
+          | .rne | .rna => fracHalf Q.1 Q.2 TP128 amount
+          | .rdn | .rtz => fracZero Q.1 Q.2 TP128 amount
+          | .rup => fracTop Q.1 Q.2 TP128 amount
         if exact then fpsc else fpsc ||| (fUnderflow ||| fInexact)
     some ((CQ.1, sgn ||| CQ.2), fpsc)
   | _, _, _ => none
@@ -315,16 +335,19 @@ def handle_UF_128_rem (sgn : Nat) (expon : Int) (CQ : U128) (R : Nat) (rnd_mode 
     let ed2 := wrapI32 (1 - expon)
     ufTail sgn ed2 CQ rnd_mode fpsc
 
+/-- the body of the normalisation loop of `bid_get_BID128` (l. 793–798): `coeff *= 10` by shifts and adds -/
+def loopTimes10 (coeff : U128) : U128 :=
+  let c1 := add64 (add64 (add64 (shl64 coeff.2 3) (shl64 coeff.2 1)) (shr64 coeff.1 61)) (shr64 coeff.1 63)
+  let tmp2 := shl64 coeff.1 3
+  let c0 := add64 (shl64 coeff.1 1) tmp2
+  let c1 := if c0 < tmp2 then add64 c1 1 else c1
+  (c0, c1)
+
 /-- the normalisation loop of `bid_get_BID128` (l. 792–800): at most `fuel` turns -/
 def getLoop : Nat → U128 → Int → U128 × Int
   | 0, coeff, expon => (coeff, expon)
   | fuel + 1, coeff, expon =>
-    if gt_128 (power10 33) coeff ∧ expon > 12287 then
-      let c1 := add64 (add64 (add64 (shl64 coeff.2 3) (shl64 coeff.2 1)) (shr64 coeff.1 61)) (shr64 coeff.1 63)
-      let tmp2 := shl64 coeff.1 3
-      let c0 := add64 (shl64 coeff.1 1) tmp2
-      let c1 := if c0 < tmp2 then add64 c1 1 else c1
-      getLoop fuel (c0, c1) (expon - 1)
+    if gt_128 (power10 33) coeff ∧ expon > 12287 then getLoop fuel (loopTimes10 coeff) (expon - 1)
     else (coeff, expon)
 
 /-- `bid_get_BID128` (l. 766–829).  The loop is entered only with `expon ≤ 12287 + 34` and leaves at
@@ -369,12 +392,15 @@ and the full outgoing status word.
   `get`, `handle_uf` (same args; result `r.w0 r.w1`), `handle_uf_rem` (args `sgn expon CQ.w0 CQ.w1 R`).
   `i32`s travel sign-extended; the hook truncates the word with `as i32`, and so does this.
 * `none`: another name, a wrong number of arguments, an argument that is not a 64-bit word, or an input on which
-  the real routine panics with a table index out of range: `handle_uf` with `expon > 35`… precisely, when after
-  the early-return test `expon + 34 < 0` the digit count `ed2 = −expon` (`handle_uf`, `get` with `expon < 0`) resp.
-  `ed2 = 1 − expon` (`handle_uf_rem`) is not in `0 … 35`, i.e. `handle_uf` with `expon > 0` and `handle_uf_rem`
-  with `expon > 1` (for `expon ≥ 2^31 − 34` the `i32` sum `expon + 34` wraps and the early return is taken).
-  On every other input (all sign words, all coefficients, all `i32` exponents, all status words, all five modes) the
-  model is claimed to mirror the code word for word.
+  the real routine panics with a table index out of range (the harness prints `=> PANIC`).  That happens exactly
+  when the early-return test `expon + 34 < 0` (an `i32` sum: it wraps, and is taken, for `expon ≥ 2^31 − 34`) fails and
+  the digit count `ed2 = −expon` (`handle_uf`; `get` reaches it only with `expon < 0`, so never) resp.
+  `ed2 = 1 − expon` (`handle_uf_rem`) is negative: `handle_uf` with `1 ≤ expon < 2^31 − 34`, `handle_uf_rem` with
+  `2 ≤ expon < 2^31 − 34`.  (`ed2 ≤ 35` always holds past the early return, and all three tables have 36 rows.)
+  On every other input — all sign words, all 128-bit coefficients, all `i32` exponents, all status words, all five
+  modes — the model is claimed to mirror the code word for word, including outside the domains of the theorems of
+  `DecProofs/Properties/C13PackHelpers.lean` (zero coefficients on the deep underflow path, `expon = 0`, coefficients
+  above 10^34, `expon + 1` wrapping at `2^31 − 1`, sign words other than 0 / 2^63).
 -/
 def hkPack (name : String) (mode : Mode) (flagsIn : Nat) (args : List Nat) : Option (List Nat × Nat) :=
   if args.all (· < W64) then
